@@ -36,6 +36,9 @@ type PropRound struct {
 	Mempool      []MemTx `json:"mempool,omitempty"`
 	Stale        int     `json:"stale,omitempty"` // honest rounds: 1 = mempool txs expire before the proposal is built, 2 = their sequence is consumed by another tx first
 	Mut          int     `json:"mut"` // 0 = honest round with the real proposal builder; > 0 = mutation kind
+	// Prime (deviation rounds): every node first verifies the well-formed proposal of this height (a round that is
+	// accepted but never decided), then sees the deviating one
+	Prime bool `json:"prime,omitempty"`
 	Arg          int     `json:"arg"`
 }
 
@@ -46,7 +49,8 @@ type PropCase struct {
 var propMutNames = []string{"honest", "no-txs", "17-txs", "first-not-block-msg", "two-msgs-in-first-tx", "second-block-msg-later", "other-author",
 	"author-not-consensus-proposer", "fee-recipient-not-author", "wrong-parent", "wrong-number", "wrong-beacon-root", "zero-gas-requests", "two-gas-requests",
 	"undecodable-requests", "system-section-deviates", "engine-INVALID", "engine-SYNCING", "engine-ACCEPTED", "engine-error", "future-timestamp",
-	"wrong-signature", "wrong-sequence", "wrong-timeout-height", "non-bridge-msg-among-rest", "count-byte-raised", "nil-payload"}
+	"wrong-signature", "wrong-sequence", "wrong-timeout-height", "non-bridge-msg-among-rest", "count-byte-raised", "nil-payload",
+	"state-root-changed-hash-kept", "user-tx-appended-hash-kept"}
 
 type propWorld struct {
 	c       *world.Cluster
@@ -352,9 +356,36 @@ func (w *propWorld) round(ri int, r PropRound, o *Outcome) *Failure {
 		}
 	case "nil-payload":
 		eo.Mutate = func(m *goatmodtypes.MsgNewEthBlock) { m.Payload = nil }
+	case "state-root-changed-hash-kept":
+		// only the execution engine can notice: the claimed block hash is still the honest block's
+		eo.Mutate = func(m *goatmodtypes.MsgNewEthBlock) {
+			sr := append([]byte{}, m.Payload.StateRoot...)
+			sr[len(sr)-1] ^= 1
+			m.Payload.StateRoot = sr
+		}
+	case "user-tx-appended-hash-kept":
+		eo.Mutate = func(m *goatmodtypes.MsgNewEthBlock) {
+			m.Payload.Transactions = append(append([][]byte{}, m.Payload.Transactions...), []byte{0x02, 0xc0})
+		}
 	}
 	if !applicable {
 		return w.honestHarnessBlock(r.DT, r.Proposer, plan, nil)
+	}
+	if r.Prime {
+		honestRaw, _, err := p.BuildEthBlockTx(blk, propKey, world.EthBlockOpts{Plan: plan})
+		if err != nil {
+			return failf("fixture", "eth-tx-build-failed", "%v", err)
+		}
+		for i, n := range c.Nodes {
+			pp, err := n.Process(blk.ProcessReq([][]byte{honestRaw}))
+			if err != nil {
+				return failf("no-crash", "process-failed", "%v", err)
+			}
+			if pp.Status != abci.ResponseProcessProposal_ACCEPT {
+				return failf("honest-accepted", "honest-proposal-rejected", "round %d: node %d rejected the well-formed harness-built proposal", ri, i)
+			}
+		}
+		o.Classes = append(o.Classes, "primed")
 	}
 	ethRaw, ethMsg, err := p.BuildEthBlockTx(blk, propKey, eo)
 	if err != nil {
@@ -464,6 +495,7 @@ func genPropCase(t *rapid.T) PropCase {
 			}
 		} else {
 			r.Mut = 1 + int(mix64(rapid.Uint64().Draw(t, "mut"))%uint64(len(propMutNames)-1)) // uniform over the deviations
+			r.Prime = rapid.IntRange(0, 2).Draw(t, "prime") == 0
 		}
 		c.Rounds = append(c.Rounds, r)
 	}
@@ -478,7 +510,7 @@ func TestC08_Proposals(t *testing.T) {
 	RunProp(t, Prop[PropCase]{
 		ID: "C08", Name: "proposals", Quick: quick, Thor: thor, WAL: true,
 		Gen: genPropCase, Run: runPropCase,
-		Rule: "two-validator chains replicated on two nodes (own stores, own fake execution layers); histories of 3-12 rounds with states filled by refunds, claims and unlock bursts (matured unlocks included); honest rounds: 0-40 relayer transactions (valid votes, votes for an already used sequence, failing approvals, malformed batches, stale sequences) enter the proposer's mempool through CheckTx, the node holding the proposer's key runs the real PrepareProposal, every node must ACCEPT the result, it must have <= 16 transactions and its execution-block message must succeed in FinalizeBlock; deviation rounds: a well-formed proposal with exactly one of 26 deviations (no/17 transactions, block message not first / not alone / repeated, other author, author != consensus proposer, fee recipient != author, wrong parent / number / beacon root, 0 or 2 gas requests, undecodable requests, deviating system section, engine INVALID/SYNCING/ACCEPTED/error, timestamp 1 h ahead, wrong signature / sequence / timeout height, non-bridge message, raised count byte, nil payload) must be REJECTED by every node; the same property runs in a -race build where any reported data race is a violation; non-trivial = a deviation round or an honest round with a non-empty mempool; evaluations count rounds",
+		Rule: "two-validator chains replicated on two nodes (own stores, own fake execution layers); histories of 3-12 rounds with states filled by refunds, claims and unlock bursts (matured unlocks included); honest rounds: 0-40 relayer transactions (valid votes, votes for an already used sequence, failing approvals, malformed batches, stale sequences) enter the proposer's mempool through CheckTx, the node holding the proposer's key runs the real PrepareProposal, every node must ACCEPT the result, it must have <= 16 transactions and its execution-block message must succeed in FinalizeBlock; deviation rounds: a well-formed proposal with exactly one of 28 deviations (no/17 transactions, block message not first / not alone / repeated, other author, author != consensus proposer, fee recipient != author, wrong parent / number / beacon root, 0 or 2 gas requests, undecodable requests, deviating system section, engine INVALID/SYNCING/ACCEPTED/error, timestamp 1 h ahead, wrong signature / sequence / timeout height, non-bridge message, raised count byte, nil payload, state root changed or a user transaction appended under the honest block's hash), in a third of these rounds after every node has verified (and accepted) the well-formed proposal of the same height, must be REJECTED by every node; the same property runs in a -race build where any reported data race is a violation; non-trivial = a deviation round or an honest round with a non-empty mempool; evaluations count rounds",
 	})
 }
 
